@@ -197,6 +197,19 @@ func init() {
 			specs = append(specs,
 				&EngSpec{Name: "first-use-of-a-database", Cfg: cfg1, Fine: true,
 					Threads: [][]Step{{C(dbc(L(1, 1, 1, 0, 10, 0, 0), 3))}, {C(dbc(L(2, 1, 2, 0, 10, 0, 0), 3))}}, Unlock: []hapi.Cmd{dbc(U(8, 1, 1), 3), dbc(U(9, 1, 2), 3)}})
+			// a request for key 1 is held up between finding the key's manager and taking its mutex; meanwhile the key is
+			// released (a long-table hold: the manager goes back to the free ring at once), the ring of 8 turns once while
+			// keys 2..9 are taken, and the SAME manager object now belongs to key 9; afterwards two more clients ask for key 1
+			var recycle []Step
+			recycle = append(recycle, C(U(1, 1, 1)))
+			for k := byte(2); k <= 9; k++ {
+				recycle = append(recycle, C(L(10+k, k, 10+k, 0, 100, 1, 0)))
+			}
+			specs = append(specs,
+				&EngSpec{Name: "manager-recycled-under-a-parked-request", Cfg: hapi.Config{FastKeys: 16, Concurrent: 1}, Fine: true,
+					Setup:   []Step{C(withEF(L(9, 1, 1, 0, 100, 1, 0), efZeroAof))},
+					Threads: [][]Step{recycle, {C(L(30, 1, 2, 0, 100, 1, 0))}},
+					Unlock:  []hapi.Cmd{L(31, 1, 3, 0, 100, 1, 0), L(32, 1, 4, 0, 100, 1, 0)}})
 			return &SchedPlan{Specs: specs, Monitors: []MonitorFactory{MonitorC01}, Oracles: []Oracle{OracleC01Quiescent, OracleC01Replies},
 				Bound: func(s *EngSpec, q bool) int {
 					timed := false
@@ -210,6 +223,9 @@ func init() {
 					if q {
 						if timed || len(s.Threads) > 2 || strings.HasPrefix(s.Name, "long-expiry") || s.Name == "first-use-of-a-database" {
 							return 2
+						}
+						if s.Name == "manager-recycled-under-a-parked-request" {
+							return 1 // long threads: one preemption parks the request, everything else runs in order
 						}
 						return 3
 					}
